@@ -23,13 +23,15 @@ func Run(o *drv.Out) {
 	CorpusRelock(o)
 	CorpusHighQcOneHash(o, "block")
 	CorpusHighQcOneHash(o, "results")
+	CorpusLockFromOtherPhase(o, "propose")
+	CorpusLockFromOtherPhase(o, "election-vote")
 	// randomised members of the re-lock family (roles, leaders, gaps); many more when an obligation broke
 	nRelock := 6
 	if o.Tier == "thorough" {
 		nRelock = 40
 	}
 	if o.Search {
-		nRelock = 120
+		nRelock = 30
 	}
 	for k := 0; k < nRelock; k++ {
 		p := randomRelock(o.Rng)
@@ -39,8 +41,8 @@ func Run(o *drv.Out) {
 	if o.Tier == "thorough" {
 		nCases = 1500
 	}
-	if o.Search {
-		nCases = 2000
+	if o.Search { // an obligation broke and the corpus found nothing: a bounded hunt (the check runs it once per search seed)
+		nCases = 500
 	}
 	seeds := make([]int64, nCases)
 	for k := range seeds {
@@ -423,10 +425,30 @@ func byzPhase(r *run, rng *rand.Rand, i int, lvl chaos) {
 		if len(cands) > 0 {
 			to := rng.Intn(len(s.Nodes))
 			tb := s.Nodes[to].B
-			s.ByzElectionVote(i, bftsim.VR{Root: tb.RootHeight, Round: tb.Round}, i, cands[rng.Intn(len(cands))], to)
-			r.log("byz %d sends an ELECTION_VOTE with a HighQc to %d", i, to)
-			r.o.Count("byz:election-vote-with-highqc")
-			r.flush()
+			hq := cands[rng.Intn(len(cands))]
+			if rng.Intn(3) == 0 { // a certificate of another phase dressed up as a lock, naming the recipient as candidate
+				var other []*lib.QuorumCertificate
+				for _, c := range s.Certs {
+					if c.Header.Phase != lib.Phase_PROPOSE_VOTE {
+						other = append(other, c)
+					}
+				}
+				if len(other) > 0 {
+					blk, res := s.NewBlock(fmt.Sprintf("byz-forged-%d", i))
+					hq = s.ByzForgedLockFromOtherPhase(i, other[rng.Intn(len(other))], blk, res)
+					s.ByzElectionVote(i, bftsim.VR{Root: tb.RootHeight, Round: tb.Round}, to, hq, to)
+					r.log("byz %d sends %d an ELECTION_VOTE with a forged lock from phase %s", i, to, lib.Phase_name[int32(hq.Header.Phase)])
+					r.o.Count("byz:election-vote-with-forged-lock")
+					r.flush()
+					hq = nil
+				}
+			}
+			if hq != nil {
+				s.ByzElectionVote(i, bftsim.VR{Root: tb.RootHeight, Round: tb.Round}, i, hq, to)
+				r.log("byz %d sends an ELECTION_VOTE with a HighQc to %d", i, to)
+				r.o.Count("byz:election-vote-with-highqc")
+				r.flush()
+			}
 		}
 	}
 	switch b.Phase {
@@ -473,6 +495,16 @@ func byzPhase(r *run, rng *rand.Rand, i int, lvl chaos) {
 					return
 				}
 			case 3: // ignore the locks reported by the replicas: fresh block
+				if ec := s.ElectionCertOfCurrentRound(i); ec != nil && rng.Intn(2) == 0 {
+					// ... justified by a certificate of another phase with the fresh block stapled on
+					src := ec
+					if rng.Intn(3) == 0 && len(s.Certs) > 0 {
+						src = s.Certs[rng.Intn(len(s.Certs))]
+					}
+					blk, res := s.NewBlock(fmt.Sprintf("byz-forged-%d", i))
+					r.byzPropose(i, s.ByzForgedLockFromOtherPhase(i, src, blk, res), "forged-lock-from-phase-"+lib.Phase_name[int32(src.Header.Phase)])
+					return
+				}
 				r.byzPropose(i, nil, "fresh-ignoring-locks")
 				return
 			}
